@@ -145,6 +145,9 @@ def run_sig(case, ctx):
     if st == 'ok':
         st2, r2 = ctx.call(call_with_callargs, f, ca)
         ctx.check('call_with_callargs', st2 == 'ok' and r2 == direct, lambda: 'call_with_callargs(f%s, %r) = %s %r, f(*a,**k) = %r' % (inspect.signature(f), ca, st2, r2, direct))
+        # the caller keeps its callargs dict: it still agrees with inspect and can be used again
+        st3, r3 = ctx.call(call_with_callargs, f, ca)
+        ctx.check('call_with_callargs', dict(ca) == ref and st3 == 'ok' and r3 == direct, lambda: 'after call_with_callargs the callargs dict is %r (inspect: %r); second use = %s %r' % (ca, ref, st3, r3))
     # ---- transparency through the stack
     w = wrap(f, stack)
     has_ks = 'kwargs_support' in stack
@@ -173,6 +176,14 @@ def run_sig(case, ctx):
                 chain = structure(wrap(f, [W, X, W] + stack[2:]))
                 ref_ = structure(wrap(f, [W, X] + stack[2:]))
                 ctx.check('no_double_wrapping', chain == ref_, lambda: '%s(%s(%s(..))) = %r, expected %r' % (W, X, W, chain, ref_))
+                if len(stack) >= 3 and stack[2] not in (W, X):
+                    Y = stack[2]
+                    deep = structure(wrap(f, [W, X, Y, W] + stack[3:]))
+                    ref3 = structure(wrap(f, [W, X, Y] + stack[3:]))
+                    ctx.check('no_double_wrapping', deep == ref3, lambda: '%s(%s(%s(%s(..)))) = %r, expected %r' % (W, X, Y, W, deep, ref3))
+                    st4, g4 = ctx.call(wrap(f, [W, X, Y, W] + stack[3:]), *a, **k)
+                    if not (has_ks and sig['varkw'] and extra_kw):
+                        ctx.check('wrapped_equals_direct', st4 == 'ok' and g4 == direct, lambda: 'W(X(Y(W(f)))) call = %s %r vs %r' % (st4, g4, direct))
                 wf = wrap(f, [W, X, W] + stack[2:])
                 stx, gx = ctx.call(wf, *a, **k)
                 if not (has_ks and sig['varkw'] and extra_kw):
